@@ -58,3 +58,24 @@ func init() {
 		}
 	}
 }
+
+func init() {
+	// solana.SignatureFromBytes: copies at most 64 bytes into a zeroed [64]byte (exact model of the
+	// library function; package solana-go is too large to be a source root).
+	const sfb = "github.com/gagliardetto/solana-go.SignatureFromBytes"
+	if externals[sfb] == nil {
+		externals[sfb] = func(fr *frame, args []value) value {
+			stub("solana.SignatureFromBytes (model: exact, copy of at most 64 bytes)")
+			in, _ := args[0].([]value)
+			out := make(array, 64)
+			for i := range out {
+				if i < len(in) {
+					out[i] = in[i]
+				} else {
+					out[i] = uint8(0)
+				}
+			}
+			return out
+		}
+	}
+}
